@@ -34,12 +34,18 @@ CHECKS = {
     "C14": dict(spec="RequestWait", ref="DESIGN.md §4 C14",
                 text="Same specification as C01 with cancellation tokens, progress callbacks and traffic patterns; deadline, cancellation-promptness, single-cancel-notification and exact-progress clauses are invariants checked by TLC on the model and on every recorded execution (including floods every 10 ms).",
                 note="Trusted: TLC, the virtual clock (anyio deadlines are loop timers). Time is virtual; real-time scheduling jitter is out of scope."),
+    "C16": dict(spec="StdioLifecycle", ref="DESIGN.md §4 C16",
+                text="StdioLifecycle models the shutdown protocol of __aexit__ (close outgoing, join tasks, terminate, grace period, kill) against children that obey or ignore SIGTERM or exit on their own, under normal exit, exception, outer cancellation and a timeout around the context; TLC checks no-child-left-behind, bounded exit and kill-only-after-terminate, and shows that the unshielded variant (the pre-fix behaviour) violates them. All 121 scenarios (11 child behaviours x 4 exit paths x 3 moments) run against REAL child processes with the real clock; terminate/kill/wait calls, exit duration, /proc process state, fd-table delta and the fate of the pending request are recorded and TLC judges the statement's end-state clauses on every run.",
+                note="Real-time check: 2 s of grace plus 2.5 s slack; a duration-only failure is re-run alone before it is reported. Trusted: /proc observations, the process proxy. The trace specification is an observer of end-state clauses; the protocol itself is model-checked."),
     "C18": dict(spec="RequestWait", ref="DESIGN.md §4 C18",
                 text="RequestWait with 2 callers is explored exhaustively by TLC; schedules with 2..4 concurrent callers are replayed into the real code and validated. NoCrossTalk holds; NoLostResponse is violated by design (a waiter discards another caller's response) and is a listed known finding; any other signature is reported.",
                 note="The stream's wake-up policy is environment nondeterminism. Known finding keyed on clause=NoLostResponse consumer!=owner discarded."),
     "C19": dict(spec="SessionStore", ref="DESIGN.md §4 C19",
                 text="SessionStore specifies the store as a map from fresh ids to timestamped records with one action per public operation (incl. initialize and request handling through the protocol handler); TLC checks id freshness, record stability and the exact-expiry action property exhaustively (3 sessions, clock 0..4, max_age 0..2). Maximal histories of the edge cover plus seeded random sequences are executed against the real InMemorySessionManager/ProtocolHandler under a model clock; every event logs arguments, return value and the full projected store, and TLC replays the trace through the specification deterministically - a trace it cannot follow is a violation at that operation.",
                 note="Trusted: TLC, the clock seam (memory.time), renaming of real ids by first appearance. Bounds: model constants; random sequences of 40 (quick) / 200 (thorough) operations."),
+    "C20": dict(spec="HostLaunch", ref="DESIGN.md §4 C20",
+                text="HostLaunch models load -> spawn -> initialize for the three entry points over configuration classes and malformed-configuration classes; TLC checks that exactly the configured command lines are launched and initialized, and that malformed configurations surface as the documented exception (loader) or a reported failure without a spawn. Generated configuration files (args with spaces/quotes/shell metacharacters/Unicode/empty strings/40 args, env absent/empty/with values, timeout absent/int/float/string, extra keys, 1-4 servers) are run through the real load_config, __main__.test_server and run_command with witness children that record their argv and environment; TLC judges every observed case.",
+                note="Trusted: the witness child, exact comparison of argv/env by the driver (flags to TLC). os.system('clear') is stubbed."),
 }
 
 
